@@ -2,7 +2,7 @@
 from vf.enum import deviations
 from vf.props.txgen import SEQS, lib_rebuild, lib_serialise, make_tx, textual_txs
 from vf.ref import tx_ref as R
-from vf.runner import Acc, filler
+from vf.runner import Acc, filler, as_tuple
 
 PROPERTY = "C05"
 # E6: seq_ops() indices of the operations that are interrupted at every line (vf/seqexplore.interrupted); probes = the whole alphabet
@@ -168,7 +168,7 @@ def chk_compact(case):
     if enc != ("ok", exp):
         return [("C05/compact/encoding", f"compact_size_uint({n}) = {enc}, expected {exp.hex()}")]
     dec = call(bits.parse_compact_size_uint, exp + tr)
-    if dec[0] != "ok" or tuple(dec[1]) != (n, tr):
+    if dec[0] != "ok" or as_tuple(dec[1]) != (n, tr):
         return [("C05/compact/parse", f"parse_compact_size_uint({(exp + tr).hex()}) = {dec}")]
     return []
 
